@@ -31,12 +31,12 @@ def run(c):
     c.assumptions += [
         "float64 is modelled exactly inside the exact domain only (integer values, counters/sums that are multiples of 1/4, |m| < 2^53); rounding outside it is not decided",
         "the random draw of AddCounterHost is modelled as the SET of hosts MaxCounterHostTag may hold; the row encoder receives the host the real item ended with and checks membership",
-        "the three float32 values written after the hosts (SkewMinMaxHost/SkewMaxCounterHost, rng.Float64 products) are inputs of the model taken from the real row",
+        "the three float32 values written after the hosts (SkewMinMaxHost/SkewMaxCounterHost, rng.Float64 products) are inputs of the model; they depend on Go's map iteration order, so the compared rows carry them zeroed and the oracle checks that the real reader returns the bits that were written",
         "hrissan/tdigest is trusted: ValueTDigest.Centroids() is an input of the row encoder (float64 bit patterns); the reader side is compared only when its digest kept every centroid",
         "the open-addressing table of ChUnique is the set of stored values (SH.Model.Unique); the table order of the written values is an input checked to be a permutation of the model's set",
         "insert budget does not bind (sample factor 1, checked on every item); fewer than AggregatorStringTopCapacity=1000 tops per key (no resample); metrics are positive ids without meta (no skip flags, no badges); a tag slot holds an int or a string, not both; tag 47 is the string top",
         "one_row_per_key is per aggregator bucket: a body built from several buckets repeats a (time, key) that two buckets hold (explicit row timestamp equal to another bucket's second); the generator keeps bucket seconds 1000 s apart",
-        "FinishStringTop ties at the capacity boundary depend on Go's unstable sort: such cases are generated but not replayed (stat body.skip.tie)",
+        "FinishStringTop ties at the capacity boundary depend on Go's unstable sort, and several over-capacity items in one body draw from one rng in map order: such cases are generated and merged but their insert is not replayed (stats body.skip.tie, body.skip.order)",
     ]
     binary = gen(c)
     c.prove("SH.Props.C03", extra_files=["SH/Model/Insert.lean", "SH/Model/Unique.lean", "SH/Lemmas/UniqueTrie.lean"])
